@@ -17,7 +17,7 @@ HOOK_COQ = {"pre_send": "HPreSend", "post_send": "HPostSend", "pre_execute": "HP
 HOOKS_MSG = ("pre_send", "pre_execute")
 HOOKS_RES = ("on_error", "post_execute", "post_save")
 HOOKS_ALL = ("pre_send", "post_send", "pre_execute", "on_error", "post_execute", "post_save")
-KICK_COQ = {"ok": "KickOk", "dumps_fail": "DumpsFail", "kick_fail": "KickFail", "kick_fail_broker": "KickFail",
+KICK_COQ = {"ok": "KickOk", "dumps_fail": "DumpsFail", "kick_fail": "KickFail", "kick_fail_broker": "KickFail", "no_broker": "KickFail",
             "kick_fail_sub": "KickFail", "kick_fail_send": "KickFail"}
 ACKABLE = ("sync", "async", "future", "task", "obj")     # styles of the acknowledge callable ("none" = plain bytes)
 AW_STYLES = ("future", "task", "obj", "coro")           # hooks: plain functions returning a non-`async def` awaitable
@@ -249,8 +249,8 @@ def c_eff(ev, lt, cx=None):
         return "(FHookM %s %s %s)" % (HOOK_COQ[name], C.cn(i), m)
     if k == "base":      # a hook the class does not override was invoked: an effect the model never has
         return "(FHookM %s %s (mkmsg 4999 4999 None))" % (HOOK_COQ[ev[1]], C.cn(max(ev[2], 0) % 100))
-    if k in ("hook.exit", "ack.exit", "rekick"):
-        return None
+    if k in ("hook.exit", "ack.exit", "rekick", "inner.start", "inner.end"):
+        return None                       # (inner.*: the innermost function under the registered callable, gen_deco)
     simple = {"ack": "FAck", "exec.begin": "FExecBegin", "exec.end": "FExecEnd", "dep.open": "FDepOpen",
               "dep.saw": "FDepSaw", "dep.close": "FDepClose", "body.start": "FTaskStart", "save.exit": "FSaveOk",
               "save.raise": "FSaveErr", "done": "FDone"}
@@ -292,6 +292,8 @@ def split_log(case, log):
         if ev[0] == "body.end" and ended[w] and case["type"] == "recv" and case["msgs"][w]["style"] == "sync":
             late[w] += 1
             continue
+        if ev[0] in ("inner.start", "inner.end") and ended[w] and case["type"] == "recv" and case["msgs"][w]["style"] == "sync":
+            continue       # (the innermost function under a detached sync callable, gen_deco: evidence only)
         per[w].append(ev)
         glob.append((w, ev))
     return per, glob, late, stray
@@ -467,6 +469,8 @@ def send_ctx(case):
     """per send: b = the broker its kicker points at when it is sent, stack = the middleware specs registered on that
     broker at that moment (scenario arithmetic only: with_broker / add_middlewares steps of the chain so far)"""
     sends = case["sends"]
+    if case.get("shared"):
+        return shared_ctx(case)
     stacks = [list(case["mws"])] + [list(x) for x in case.get("brokers") or []]
     adds = any((S.get("op") or {}).get("add_mws") for S in sends)
     if adds and (len({S.get("chain") for S in sends}) != 1 or sends[0].get("chain") is None):
@@ -487,10 +491,51 @@ def send_ctx(case):
     return out
 
 
+def shared_ctx(case):
+    """send_ctx of a shared-task scenario (gen_shared; driver: shared_scenario): the broker a send must go through is the
+    one its kicker is BOUND to - the default broker at the moment the kicker was obtained from the task (now, for
+    task.kicker() / task.kiq(); earlier, for a kept kicker), re-pointed by with_broker; when no default broker was
+    configured at that moment, the shared broker itself (index SH = number of real brokers; stack = the middlewares
+    registered on the shared broker, normally none), which has no transport: that send cannot be made (kick = no_broker)"""
+    sh = case["shared"]
+    stacks = [list(case["mws"])] + [list(x) for x in case.get("brokers") or []] + [list(sh.get("mws") or [])]
+    SH = len(stacks) - 1
+    st = {"default": None}
+    kept = {}
+
+    def apply(ops):
+        for op in ops or []:
+            if op[0] == "default":
+                st["default"] = op[1]
+            elif op[0] == "unset":
+                st["default"] = None
+            elif op[0] == "prepare":
+                kept[op[1]] = SH if st["default"] is None else st["default"]
+            else:
+                raise ValueError(op)
+    apply(sh.get("init"))
+    out = []
+    for S in case["sends"]:
+        h = S["sh"]
+        apply(h.get("ops"))
+        if h["via"] == "use":
+            if h.get("rebind") is not None:
+                kept[h["name"]] = h["rebind"]
+            b = kept[h["name"]]
+        else:
+            b = SH if st["default"] is None else st["default"]
+        if (b == SH) != (S.get("kick", "ok") == "no_broker"):
+            raise ValueError("kick = no_broker exactly for the sends bound to the shared broker")
+        out.append(dict(b=b, stack=list(stacks[b]), shared=b == SH))
+    return out
+
+
 def final_stacks(case):
     if case["type"] != "send":
         return [case["mws"]]
     stacks = [list(case["mws"])] + [list(x) for x in case.get("brokers") or []]
+    if case.get("shared"):
+        return stacks + [list(case["shared"].get("mws") or [])]
     for S, cx in zip(case["sends"], send_ctx(case)):
         if len(cx["stack"]) > len(stacks[cx["b"]]):
             stacks[cx["b"]] = cx["stack"]
@@ -761,6 +806,39 @@ def oracle_c10_send(case, per, fail):
             fail("a hook was not run to completion before the next step", sig, evs)
             continue
         kick = S.get("kick", "ok")
+        if case.get("shared") and not any(e[0] == "crash" and e[1] == "CustomError" for e in evs):
+            # the statement, read on what the brokers saw: a broker that transmits a message (its kick() was entered) does so
+            # after the pre_send hooks of ITS middlewares, in order, and the post_send hooks of its middlewares follow a
+            # successful send; a send that cannot be made (the kicker is bound to the shared broker, which has no
+            # transport) raises SendTaskError and reaches no broker
+            SH = len(final_stacks(case)) - 1
+            stacks = final_stacks(case)
+            bad = False
+            for k, e in enumerate(evs):
+                if e[0] != "kick" or e[3] == SH or not (0 <= e[3] < SH):
+                    continue
+                b = e[3]
+                if cxs[i]["shared"]:
+                    fail("a send that cannot be made (kicker bound to the shared broker) reached a broker", dict(sig, broker=b), evs)
+                    bad = True
+                    break
+                wp = [100 * b + j for j, m in enumerate(stacks[b]) if m.get("pre_send") is not None and not m["pre_send"].get("inst")]
+                wq = [100 * b + j for j, m in enumerate(stacks[b]) if m.get("post_send") is not None and not m["post_send"].get("inst")]
+                if [x[2] for x in evs[:k] if x[0] == "hook" and x[1] == "pre_send"] != wp:
+                    fail("a broker transmitted the message without the pre_send hooks of its middlewares before it",
+                         dict(sig, broker=b), evs)
+                    bad = True
+                    break
+                if any(x[0] == "sent" for x in evs) and [x[2] for x in evs[k:] if x[0] == "hook" and x[1] == "post_send"] != wq:
+                    fail("a successful send was not followed by the post_send hooks of the transmitting broker's middlewares",
+                         dict(sig, broker=b), evs)
+                    bad = True
+                    break
+            if bad:
+                continue
+            if cxs[i]["shared"] and not any(e[0] == "crash" and e[1] == "SendTaskError" for e in evs):
+                fail("a send that cannot be made (kicker bound to the shared broker) did not raise SendTaskError", sig, evs)
+                continue
         pre = [e[2] for e in evs if e[0] == "hook" and e[1] == "pre_send"]
         post = [e[2] for e in evs if e[0] == "hook" and e[1] == "post_send"]
         # the middlewares of the broker the kicker points at WHEN this send is made (indices: 100 * broker + position)
@@ -1188,6 +1266,7 @@ def gen_recv(r, focus="c02", allow_d10=True):
     gen_rereg(case)
     gen_life(case)
     gen_params(case)
+    gen_deco(case)
     return case
 
 
@@ -1626,6 +1705,129 @@ def count_rereg(rep, case, per):
             if "save.enter" not in names and "done" in names:
                 rep.count("re-registration:no-result-outcome")
             prev = M
+
+
+DECO_P = 0.15      # fraction of the receive cases in which the callable REGISTERED as a task is built around the function (decorators ...)
+DECO_HOW = ["wraps"] * 6 + ["wraps2"] * 4 + ["nowraps", "partial_uw", "partial_uw", "partial_named", "instance", "instance_uw",
+                                             "instance_uw", "wrapped_attr", "wrapped_attr", "async_over_sync", "async_over_sync"]
+
+
+def gen_deco(case):
+    """HOW the task function is defined and registered (driver: decorated / make_task).  Until now the callable handed to
+    broker.register_task / @broker.task was always the plain function whose body produces the outcome: "the registered
+    callable" and "the function the user wrote" were one object.  M["deco"] (70 % of the valid messages of DECO_P of the cases):
+      how     wraps | wraps2 (one / two functools.wraps decorator layers) | nowraps | async_over_sync (async wrapper around a
+              sync function) | partial_uw (functools.partial + update_wrapper) | partial_named | instance | instance_uw
+              (callable object, async ones marked with inspect.markcoroutinefunction) | wrapped_attr (__wrapped__ set by hand)
+      layers  outermost first: {"on": None} passes on what happens below; {"on": "raise", "out": o} catches the exception from
+              below and ends with o (a fallback value: catch; another exception: convert); {"on": "ret", "out": o} looks at the
+              value from below and ends with o (another value: post-process; an exception: validate and raise); o = "final"
+              stands for M["out"]
+      inner   the outcome of the innermost function on its own ("final" = M["out"]: no layer changes it);  pre: the outermost layer spends M["segs"][:pre] itself
+              (retry back-off / rate limiting before the call), the innermost function the rest
+    M["out"], M["segs"], M["style"] keep their meaning: outcome, duration and kind OF THE REGISTERED CALLABLE - the execution
+    the statement is about - so the oracles and the model's configuration are untouched.  Not generated where the unchanged
+    tree does not execute the callable as what it is: a sync wrapper around an async function, an unmarked object with an
+    async __call__ (both are run in the pool and "return" a coroutine object), partial / objects without __name__ /
+    __annotations__ (registration fails).  Kinds other than wraps need the plain parameter list (no M["params"] / M["sig"]).
+    Own generator, seeded with the case built so far."""
+    rw = random.Random(zlib.crc32(("deco" + json.dumps(case, sort_keys=True)).encode()))
+    if rw.random() >= DECO_P:
+        return
+    lt = LabelTable(case)
+    for M in case["msgs"]:
+        if M["kind"] != "ok" or rw.random() >= .7:
+            continue
+        if M["style"] == "sync":
+            if M["out"] == {"raise": 8}:
+                continue                 # (finding D10 is keyed on the plain scenario)
+            t = effective_tmo(case, M, lt)
+            if t is not None and t <= 0:
+                continue                 # (scripted executors: the body's first segment decides the thread race)
+        how = rw.choice(DECO_HOW)
+        if how not in ("wraps", "wraps2") and (M.get("params") or M.get("sig")):
+            how = "wraps"
+        if how == "async_over_sync" and M["style"] != "async":
+            how = "wraps2"
+        n = 2 if how == "wraps2" else 1
+        change = [True] if n == 1 else rw.choice([[True, True], [True, False], [False, True]])
+        segs = M["segs"]
+        pre = len(segs) if how == "async_over_sync" else rw.randint(0, len(segs))
+        if rw.random() < .12 and any(segs[:pre]):
+            change = [False] * n         # the layers change the duration only
+        cur = {k: v for k, v in M["out"].items() if k != "x"}
+        layers, first = [], True
+        for ch in change:
+            if not ch:
+                layers.append({"on": None})
+                continue
+            if "ret" in cur:
+                below = {"raise": rw.choice([3, 3, 2, 1, 0])} if rw.random() < .5 else \
+                    {"ret": rw.choice([v for v in range(10) if v != cur["ret"]])}
+            else:
+                below = {"ret": rw.randrange(10)} if rw.random() < .6 else \
+                    {"raise": rw.choice([e for e in (3, 3, 2, 1, 0) if e != cur["raise"]])}
+            layers.append({"on": "raise" if "raise" in below else "ret", "out": "final" if first else cur})
+            first = False
+            cur = below
+        M["deco"] = dict(how=how, layers=layers, inner=cur if any(change) else "final", pre=pre)
+        if "reg_via" not in M:
+            via = rw.choice(REREG_VIA)
+            if via:
+                M["reg_via"] = via
+
+
+def deco_act(below, out):
+    if "raise" in below:
+        return "catches-exception->returns-fallback" if "ret" in out else "converts-exception"
+    return "post-processes-value" if "ret" in out else "validates-value->raises"
+
+
+def count_deco(rep, case, per):
+    if not any(M.get("deco") for M in case["msgs"]):
+        rep.count("task-callable:plain-function:case")
+        return
+    rep.count("task-callable:built-around-the-function:case")
+    for i, M in enumerate(case["msgs"]):
+        D = M.get("deco")
+        if M["kind"] != "ok":
+            continue
+        if not D:
+            rep.count("task-callable:plain-function")
+            continue
+        evs = per[i]
+        rep.count("task-callable:%s:%s" % (D["how"], M["style"]))
+        rep.count("task-callable:registered-via:" + (M.get("reg_via") or "register_task"))
+        rep.count("task-callable:dependency:" + M["dep"] + (",message-parameters" if M.get("params") else ""))
+        outs = [M["out"] if L["out"] == "final" else L["out"] for L in D["layers"] if L["on"] is not None]
+        D = dict(D, inner=M["out"] if D["inner"] == "final" else D["inner"])
+        for o, b in zip(outs, outs[1:] + [D["inner"]]):
+            rep.count("task-callable:layer:" + deco_act(b, o))
+        for L in D["layers"]:
+            if L["on"] is None:
+                rep.count("task-callable:layer:passes-through")
+        if D["inner"].get("raise") == E_NORESULT:
+            rep.count("task-callable:innermost-function-raises-NoResultError(wrapper returns / raises something else)")
+        if M["out"].get("raise") == E_NORESULT:
+            rep.count("task-callable:wrapper-raises-NoResultError")
+        if any(M["segs"][:D["pre"]]):
+            rep.count("task-callable:outermost-layer-takes-time-before-the-call")
+        if not any(L["on"] is not None for L in D["layers"]):
+            rep.count("task-callable:layers-change-the-duration-only")
+        names = {e[0] for e in evs}
+        if "body.start" in names:
+            rep.count("task-callable:registered-callable-ran")
+        if "inner.start" in names:
+            rep.count("task-callable:innermost-function-ran-underneath")
+        for e in evs:
+            if e[0] == "save.enter":
+                own = (True, None, M["out"]["raise"]) if "raise" in M["out"] else (False, M["out"]["ret"], None)
+                inner = (True, None, D["inner"]["raise"]) if "raise" in D["inner"] else (False, D["inner"]["ret"], None)
+                got = (e[2], e[3], e[4])
+                rep.count("task-callable:stored-result:" + ("outcome-of-the-registered-callable" if got == own else
+                                                            "outcome-of-the-innermost-function" if got == inner else "other(timeout, dependency, hook)"))
+        if "save.enter" not in names and "done" in names:
+            rep.count("task-callable:nothing-stored(no-result outcome)")
 
 
 LIFE_P = 0.2       # fraction of the cases (receive and send) with startup() / shutdown() calls on the broker object(s)
@@ -2089,9 +2291,154 @@ def gen_send(r):
                                                  "kick_fail_sub", "kick_fail_send"])))
     if r.random() < CHAIN_P:
         gen_chains(r, case)
+    gen_shared(case)
     gen_kickx(case)
     gen_life(case)
     return case
+
+
+SHARED_P = 0.2     # fraction of the send cases without kicker chains (= 15 % of all) that send through a SHARED task (async_shared_broker)
+
+
+def gen_shared(case):
+    """sends through taskiq's SHARED broker (driver: shared_scenario; scenario arithmetic: shared_ctx).  Until now every
+    kicker was constructed directly on a real broker: the indirection "shared task -> default broker", and WHEN a kicker is
+    bound to its broker, were never exercised.  The sends of such a case are the steps of one sequential scenario:
+      case["shared"]  glob (the module-level taskiq.async_shared_broker | a fresh AsyncSharedBroker()), via (how the task is
+                      declared: decorator | register_task), task_labels, mws (0-1 middlewares registered on the shared
+                      broker itself), init (ops before the first send)
+      S["sh"]         ops before this send: ["default", b] (default broker set / CHANGED), ["unset"], ["prepare", name,
+                      labels_add] (a kicker obtained now - at import time, before any default broker is known - and kept);
+                      via = kicker (task.kicker() now) | kiq (task.kiq()) | use (the kept kicker `name`, possibly several
+                      times, possibly re-pointed with with_broker first: rebind = b)
+    1-3 real brokers with their own stacks.  A send bound to a real broker keeps its planned kick result; a send bound to
+    the shared broker has kick = no_broker (the model's KickFail over the shared broker's own stack).
+    Own generator, seeded with the case built so far."""
+    rw = random.Random(zlib.crc32(("shared" + json.dumps(case, sort_keys=True)).encode()))
+    sends, tbl = case["sends"], case["labels"]
+    if any(S.get("chain") is not None for S in sends) or rw.random() >= SHARED_P:
+        return
+    nb = rw.choice([1, 1, 2, 2, 3])
+    case["brokers"] = [gen_mws(rw, tbl, "send", p_raise=.06) for _ in range(nb - 1)]
+    ids = [S["id"] for S in sends]
+    while len(sends) < 2 or (len(sends) < 5 and rw.random() < .4):
+        sends.append(dict(id=rw.choice([x for x in range(10) if x not in ids]), labels=0, arrive=g_susp(rw), kick_susp=g_susp(rw),
+                          kick=rw.choice(["ok", "ok", "ok", "ok", "kick_fail", "dumps_fail"])))
+        ids.append(sends[-1]["id"])
+    sh = dict(glob=rw.random() < .8, via=rw.choice(["decorator", "decorator", "register_task"]), task_labels=sends[0]["labels"],
+              mws=[], init=[])
+    if rw.random() < .2:
+        sh["mws"] = gen_mws(rw, tbl, "send", p_raise=0)[:1]
+    SH = nb
+    base = typed(tbl[sh["task_labels"]])
+    st = {"default": None, "n": 0}
+    kept = {}
+
+    def idx(labels):
+        if labels not in [typed(d) for d in tbl]:
+            tbl.append(dict(labels))
+        return [typed(d) for d in tbl].index(labels)
+
+    def prepare():
+        add = rw.choice([None, None, {"a": "w"}, {"priority": "high"}, {"a": "x", "timeout": "3"}])
+        name = "k%d" % st["n"]
+        st["n"] += 1
+        kept[name] = dict(b=SH if st["default"] is None else st["default"], labels={**base, **(add or {})})
+        return ["prepare", name, add]
+
+    def default(other=False):
+        b = rw.choice([x for x in range(nb) if not other or x != st["default"]] or [st["default"]])
+        st["default"] = b
+        return ["default", b]
+    k = rw.random()
+    if k < .6:
+        sh["init"].append(prepare())             # "import time": the default broker is not known yet
+        if rw.random() < .5:
+            sh["init"].append(default())
+    elif k < .85:
+        sh["init"].append(default())
+        if rw.random() < .4:
+            sh["init"].append(prepare())
+    for S in sends:
+        ops = []
+        k = rw.random()
+        if st["default"] is None:
+            if k < .7:
+                ops.append(default())
+        elif k < .3:
+            ops.append(default(other=True))
+        elif k < .42:
+            ops.append(["unset"])
+            st["default"] = None
+        if rw.random() < .25:
+            ops.append(prepare())
+        h = dict(ops=ops)
+        if kept and rw.random() < .55:
+            h.update(via="use", name=rw.choice(sorted(kept)))
+            if rw.random() < .15:
+                h["rebind"] = rw.randrange(nb)
+                kept[h["name"]]["b"] = h["rebind"]
+            b, labels = kept[h["name"]]["b"], kept[h["name"]]["labels"]
+        else:
+            h["via"] = "kiq" if rw.random() < .3 else "kicker"
+            b, labels = SH if st["default"] is None else st["default"], base
+        if b == SH:
+            S["kick"] = "no_broker"
+        S["labels"] = idx(labels)
+        S["sh"] = h
+        S.pop("broker", None)
+    case["shared"] = sh
+
+
+def count_shared(rep, case, per):
+    if not case.get("shared"):
+        return
+    sh = case["shared"]
+    rep.count("send-case:through-a-shared-task")
+    rep.count("shared:broker-object:" + ("taskiq.async_shared_broker" if sh.get("glob", True) else "fresh AsyncSharedBroker()"))
+    rep.count("shared:task-declared-via:" + sh.get("via", "decorator"))
+    rep.count("shared:real-brokers:%d" % (1 + len(case.get("brokers") or [])))
+    rep.count("shared:middlewares-on-the-shared-broker-itself:%d" % len(sh.get("mws") or []))
+    cxs = send_ctx(case)
+    default, kept_at = None, {}
+    for op in sh.get("init") or []:
+        rep.count("shared:before-first-send:" + ("kicker-prepared-" + ("before" if default is None else "after") + "-default_broker()"
+                                                 if op[0] == "prepare" else op[0]))
+        if op[0] == "default":
+            default = op[1]
+        if op[0] == "prepare":
+            kept_at[op[1]] = default
+    used = set()
+    for S, cx, evs in zip(case["sends"], cxs, per):
+        h = S["sh"]
+        for op in h.get("ops") or []:
+            if op[0] == "default":
+                rep.count("shared:between-sends:default_broker-" + ("set" if default is None else "changed" if default != op[1] else "set-again"))
+                default = op[1]
+            elif op[0] == "unset":
+                rep.count("shared:between-sends:default_broker-unset")
+                default = None
+            else:
+                rep.count("shared:between-sends:kicker-prepared-" + ("before" if default is None else "after") + "-default_broker()")
+                kept_at[op[1]] = default
+        what = h["via"]
+        if what == "use":
+            what = "kept-kicker(obtained %s default_broker())" % ("before any" if kept_at[h["name"]] is None else
+                                                                   "under the current" if kept_at[h["name"]] == default else
+                                                                   "under an earlier")
+            if h["name"] in used:
+                rep.count("shared:send:kept-kicker-used-again")
+            used.add(h["name"])
+            if h.get("rebind") is not None:
+                what += "+with_broker"
+        rep.count("shared:send:" + what + (":bound-to-the-shared-broker(cannot be sent)" if cx["shared"] else ":bound-to-a-real-broker")
+                  + (",default-broker-set-now" if default is not None else ",no-default-broker-now"))
+        names = [e[0] for e in evs]
+        if cx["shared"]:
+            rep.count("shared:unsendable:" + ("SendTaskError,no-broker-reached" if "crash" in names and
+                                             not any(e[0] == "kick" and e[3] != cx["b"] for e in evs) else "other"))
+        elif "sent" in names:
+            rep.count("shared:sent-through-the-bound-broker's-middlewares")
 
 
 def gen_chains(r, case):
@@ -2425,6 +2772,7 @@ def explore(ctx, rep, pid, cases, label, oracles, nontrivial):
         if c["type"] == "recv":
             count_recv(rep, c, per, late)
             count_rereg(rep, c, per)
+            count_deco(rep, c, per)
             count_real(rep, c, per)
             for orc in oracles:
                 orc(c, per, late, f)
@@ -2435,6 +2783,7 @@ def explore(ctx, rep, pid, cases, label, oracles, nontrivial):
             for S in c["sends"]:
                 rep.count("kick:" + S.get("kick", "ok"))
             count_chains(rep, c)
+            count_shared(rep, c, per)
             count_kickx(rep, c, per)
             for evs in per:
                 rep.count("send-branch:" + ("sent" if any(e[0] == "sent" for e in evs) else
